@@ -148,6 +148,17 @@ fn main() { okq::<Bx<str>>(); okq::<Bx<[u8]>>(); okq::<Bx<u8>>(); okq::<Rf<'stat
 #[derive(TypeInfo)]
 struct Bw<T> where T: ?Sized { inner: Box<T> }
 fn main() { let _ = Bw::<str>::type_info(); let _ = Bw::<u16>::type_info(); }''',
+ "bounds_without_type_parameters": '''
+pub trait Lane { type Repr; }
+pub struct Width<const N: usize>;
+impl Lane for Width<4> { type Repr = u32; }
+#[derive(TypeInfo)]
+#[scale_info(bounds(<Width<N> as Lane>::Repr: TypeInfo + 'static))]      // only const parameters: the attribute still replaces the generated bounds
+struct Cx<const N: usize> where Width<N>: Lane { r: <Width<N> as Lane>::Repr, n: [u8; N] }
+#[derive(TypeInfo)]
+#[scale_info(bounds())]
+struct Lx<'a> { r: &'a u8, s: &'a str }
+fn main() { ok::<Cx<4>>(); ok::<Lx<'static>>(); }''',
  "where_clause_on_assoc": '''
 #[derive(TypeInfo)]
 struct W<T: Cfg> where T::A: Clone { a: T::A, b: Option<T> }
